@@ -1013,7 +1013,7 @@ func TestC23(t *testing.T) {
 
 	// (1) sequential
 	rng := r.Rand("sequential")
-	n := r.N(25000, 150000)
+	n := r.N(25000, 300000)
 	maxStates := 0
 	for i := 0; i < n && r.Violations() < 10; i++ {
 		c := c23GenSeq(rng)
@@ -1042,7 +1042,7 @@ func TestC23(t *testing.T) {
 
 	// (2) concurrent
 	crng := r.Rand("concurrent")
-	m := r.N(2000, 10000)
+	m := r.N(2000, 20000)
 	for i := 0; i < m && r.Violations() < 10; i++ {
 		nItems := 2 + crng.IntN(4)
 		c := c23Case{Items: c23GenItems(crng, nItems)}
